@@ -8,7 +8,7 @@ random input, the result is compared with an independent parse of the
 frame's own 7-byte header."""
 import struct
 
-from .. import canon, refcodec
+from .. import canon, refcodec, refspec
 from ..gen import faults, wire
 from ..mon import boundary
 from . import common
@@ -50,6 +50,31 @@ def cases(shard, rnd):
                'kinds': [f.kind for f in frames],
                'channels': [f.channel for f in frames],
                'tails': rnd.sample(_tails(rnd, frames[0].data), 4)}
+    # a published message as it really travels: method, content header and
+    # a RUN of body frames, all on one channel (and runs of frames of one
+    # kind on one channel in general): each decode returns ONE frame
+    import struct as _st
+    for _ in range(max(6, shard['streams'] // 20)):
+        ch = rnd.choice([1, 1, 7, 65535, rnd.randint(1, 65535)])
+        parts = [rnd.randbytes(rnd.choice([1, 2, 7, 8, 100, 4088, 4096]))
+                 for _ in range(rnd.choice([2, 3, 5]))]
+        pub = wire.method_frame(rnd, refspec.BY_NAME['Basic.Publish'],
+                                allow_refuse=False, channel=ch)
+        hdr = wire.header_frame(rnd, allow_refuse=False)
+        hdr_b = bytearray(hdr.data)
+        hdr_b[1:3] = _st.pack('>H', ch)
+        frames_ = [bytes(pub.data), bytes(hdr_b)] + [
+            _st.pack('>BHI', 3, ch, len(p_)) + p_ + b'\xce' for p_ in parts]
+        kinds_ = ['method', 'header'] + ['body'] * len(parts)
+        if rnd.random() < 0.5:
+            frames_, kinds_ = frames_[2:], kinds_[2:]
+        yield {'type': 'stream', 'frames': frames_, 'kinds': kinds_,
+               'channels': [ch] * len(frames_),
+               'tails': [frames_[-1], b'', frames_[0][:9], b'\xce']}
+        hb = b'\x08\x00\x00\x00\x00\x00\x00\xce'
+        yield {'type': 'stream', 'frames': [hb] * 3 + [frames_[-1]] * 2,
+               'kinds': ['heartbeat'] * 3 + ['body'] * 2,
+               'channels': [0] * 3 + [ch] * 2, 'tails': [hb, frames_[-1]]}
     # frames larger than the default frame-max are valid (frame-max is
     # negotiated); they must be consumed exactly like any other frame
     # a body frame without payload (what marshal(ContentBody(b'')) emits)
@@ -250,13 +275,24 @@ def _run_stream(case, rec):
     # non-empty field table are refused as bytearray)
     def _norm(x):
         return (x[0], tuple(str(y).replace('"$ba"', '"$b"') for y in x[1]))
+    def _keyless(f):
+        # frames without any field-table entry must decode from a bytearray
+        # (decided from the bytes with the reference decoder, not by asking
+        # the tree under test)
+        try:
+            return not any(r for r in refcodec.dec_frame(f).trace.key_runs)
+        except Exception:
+            return False
+    must = all(_keyless(f) for f in frames)
     pre = [common.lib_unmarshal(bytearray(f)) for f in frames]
-    usable = all(p.ok and _norm((p.value[1], _summ(p.value[2]))) == _norm(a)
-                 for p, a in zip(pre, alone))
+    usable = must or all(
+        p.ok and _norm((p.value[1], _summ(p.value[2]))) == _norm(a)
+        for p, a in zip(pre, alone))
     buf = bytearray(b''.join(frames)) if usable else bytearray()
     if not usable:
         rec.count('streams_not_decodable_from_bytearray')
     got = []
+    kept = []
     while buf and len(got) < len(frames) + 2:
         rec.ev()
         u = common.lib_unmarshal(buf)
@@ -273,7 +309,16 @@ def _run_stream(case, rec):
                           case)
             return
         got.append((ch, _summ(g)))
-        del buf[:c]
+        kept.append((g, _summ(g)))
+        try:
+            del buf[:c]
+        except BufferError as e:
+            rec.violation('receive-buffer-pinned-by-result',
+                          'after decoding frame %d the client cannot consume '
+                          'its own receive buffer (del buf[:consumed]): %r - '
+                          'a decoded object still refers to the caller\'s '
+                          'buffer' % (len(got) - 1, e), case)
+            return
     if usable and ([_norm(g) for g in got] != [_norm(a) for a in alone]
                    or buf):
         rec.violation('inplace-buffer-sequence-differs',
@@ -281,6 +326,17 @@ def _run_stream(case, rec):
                       'consumed in place decoded to %d frames, %d bytes left'
                       % (len(frames), len(got), len(buf)), case)
         return
+    # the buffer is reused for the next read: what was decoded from it
+    # earlier must not change
+    if usable:
+        buf[:] = b'\xaa' * 64
+        for g, was in kept:
+            if _summ(g) != was:
+                rec.violation('decoded-frame-aliases-receive-buffer',
+                              'a frame decoded from the receive buffer '
+                              'changed when the buffer was overwritten',
+                              case)
+                return
     if usable:
         rec.count('inplace_buffer_streams_ok')
     rec.count('streams_ok')
